@@ -131,7 +131,7 @@ Theorem reader_buffer_complete_implies_valid : forall H cfg fuel evs attach m o,
   m <> MDiscard ->
   cas_reader H cfg fuel evs attach m = o -> completed m (o_err o) = true ->
   valid_script H cfg evs /\ o_data o = expected_slice m (fst (content evs)).
-Proof. exact reader_complete_implies_valid. Qed.
+Proof. exact ReaderBufferProofs.reader_complete_implies_valid. Qed.
 Print Assumptions reader_buffer_complete_implies_valid.
 
 (** NewCASBufferFromByteSlice: every method. *)
